@@ -25,23 +25,30 @@ Proof. intros call c e. unfold bnd, ceil_ms. destruct ((call =? 0) || (call =? 2
 Lemma bnd_mono : forall call c e e', e <= e' -> bnd call c e <= bnd call c e'.
 Proof. intros call c e e' L. unfold bnd, ceil_ms. destruct ((call =? 0) || (call =? 2)); lia. Qed.
 
-Record SReq (s : core) (call timeout : Z) : Prop := {
+(* the wait is bounded by D: by its timeout, or by an armed timer descriptor (A) *)
+Definition KSBa (k : kernel) (timeout : Z) (A : Z -> Prop) (D : Z) : Prop :=
+  (0 <= timeout /\ D = clock k + timeout) \/ A D.
+
+Lemma KSBa_KSB : forall k timeout (A : Z -> Prop) D, (forall D, A D -> KArmed k D) -> KSBa k timeout A D -> KSB k timeout D.
+Proof. intros k timeout A D H [X|X]; [left; exact X|right; apply H; exact X]. Qed.
+
+Record SReq (s : core) (call timeout : Z) (A : Z -> Prop) : Prop := {
   sr_task : forall k, inr16 k -> task_registered s k = true ->
-    exists D, KSB (kern s) timeout D /\ D <= clock (kern s);
+    exists D, KSBa (kern s) timeout A D /\ D <= clock (kern s);
   sr_timer : forall j, inr16 j -> timer_registered s j = true ->
-    exists D, KSB (kern s) timeout D /\
+    exists D, KSBa (kern s) timeout A D /\
       (a_stale (mst s) = false -> D <= clock (kern s) \/ D <= bnd call (clock (kern s)) (HeapModel.texp (heap s) (tmid j))) }.
 
 (* the wait returned at clk, within every bound *)
-Lemma SReq_ret : forall s call timeout clk, J true s -> SReq s call timeout -> w_call (mst s) = call ->
-  (forall D, KSB (kern s) timeout D -> clk <= Z.max (clock (kern s)) D) ->
+Lemma SReq_ret : forall s call timeout A clk, J true s -> SReq s call timeout A -> w_call (mst s) = call ->
+  (forall D, KSBa (kern s) timeout A D -> clk <= Z.max (clock (kern s)) D) ->
   (a_clk (mst s) < clk -> any_obj (a_tk (mst s)) = false) /\
   (a_clk (mst s) < clk -> a_stale (mst s) = false -> forall e, min_expiry (mst s) = Some e ->
      a_clk (mst s) < e /\
      clk <= Z.max (a_clk (mst s)) (if (w_call (mst s) =? 0) || (w_call (mst s) =? 2)
                                    then a_clk (mst s) + ceil_ms (e - a_clk (mst s)) else e)).
 Proof.
-  intros s call timeout clk Jh [RT RM] WC BD.
+  intros s call timeout A clk Jh [RT RM] WC BD.
   pose proof (ag_clk _ _ (j_ag _ _ Jh)) as AC. rewrite AC, WC.
   split.
   - intros SL. apply any_obj_false. intros k K.
@@ -56,13 +63,182 @@ Proof.
     split; [apply (bnd_future call); lia|lia].
 Qed.
 
-Lemma SReq_hang : forall s call timeout, J true s -> SReq s call timeout ->
-  (forall D, KSB (kern s) timeout D -> False) ->
+Lemma SReq_hang : forall s call timeout A, J true s -> SReq s call timeout A ->
+  (forall D, KSBa (kern s) timeout A D -> False) ->
   any_obj (a_tm (mst s)) = false /\ any_obj (a_tk (mst s)) = false.
 Proof.
-  intros s call timeout Jh [RT RM] NB. split; apply any_obj_false; intros j JR.
+  intros s call timeout A Jh [RT RM] NB. split; apply any_obj_false; intros j JR.
   - destruct (a_tm (mst s) j) eqn:TM; [|reflexivity]. exfalso.
     rewrite (proj1 (J_AgTm _ _ Jh j JR)) in TM. destruct (RM j JR TM) as (D & SB & _). exact (NB D SB).
   - destruct (a_tk (mst s) j) eqn:TK; [|reflexivity]. exfalso.
     rewrite (J_AgTk _ _ Jh j JR) in TK. destruct (RT j JR TK) as (D & SB & _). exact (NB D SB).
+Qed.
+
+(* ---------- the timeout computed from the loop state ---------- *)
+Definition AbsOf (s : core) : option Z :=
+  match tasks s with _ :: _ => Some 0 | [] => soonest_timeout s end.
+
+Lemma task_reg_tasks : forall s k, cur s = None -> task_registered s k = true -> tasks s <> [].
+Proof.
+  intros s k C H. unfold task_registered in H. rewrite C, orb_false_r in H. apply mem_z_In in H.
+  intros E. rewrite E in H. destruct H.
+Qed.
+
+Lemma soonest_min : forall s j, HeapFacts.Inv (heap s) -> HeapModel.batch (heap s) = [] ->
+  timer_registered s j = true ->
+  exists a, soonest_timeout s = Some a /\ a <= HeapModel.texp (heap s) (tmid j).
+Proof.
+  intros s j HI B TR. unfold soonest_timeout, HeapModel.soonest.
+  pose proof (treg_true _ _ TR) as NI.
+  destruct (HeapFacts.i_batch _ HI) as (B1 & _ & B3). specialize (B3 (tmid j)).
+  assert (GE : 1 <= HeapModel.tidx (heap s) (tmid j)).
+  { destruct (Z.eq_dec (HeapModel.tidx (heap s) (tmid j)) 0) as [Z0|NZ]; [|lia].
+    apply B1 in Z0. rewrite B in Z0. destruct Z0. }
+  destruct (HeapFacts.i_back _ HI _ GE) as [RG _].
+  destruct (Z.eqb_spec (HeapModel.num (heap s)) 0) as [N0|NN]; [lia|].
+  pose proof (HeapFacts.i_num _ HI) as NP.
+  destruct (HeapFacts.i_filled _ HI 1 ltac:(lia)) as (t & E1 & _). rewrite E1.
+  exists (HeapModel.texp (heap s) t). split; [reflexivity|].
+  apply (HeapCollect.root_min (heap s) t (tmid j) HI E1 GE).
+Qed.
+
+Lemma msec_le_ceil : forall r, 0 <= r -> msec_of_rel r * 1000000 <= ceil_ms r.
+Proof.
+  intros r R. unfold msec_of_rel, ceil_ms, NS. destruct (Z.ltb_spec (r / 1000000000) 86400); lia.
+Qed.
+
+Lemma msec_nonneg : forall r, 0 <= r -> 0 <= msec_of_rel r.
+Proof. intros r R. unfold msec_of_rel, NS. destruct (Z.ltb_spec (r / 1000000000) 86400); lia. Qed.
+
+Lemma msec_zero : msec_of_rel 0 = 0.
+Proof. reflexivity. Qed.
+
+Lemma ceil_mono : forall a b, a <= b -> ceil_ms a <= ceil_ms b.
+Proof. intros a b L. unfold ceil_ms. lia. Qed.
+
+(* the relative timeout, in ns, handed to the kernel for abs = Some a *)
+Definition rel_of (s : core) (a : Z) : Z := if time s <? a then a - time s else 0.
+Definition ns_of (call r : Z) : Z := if (call =? 0) || (call =? 2) then msec_of_rel r * 1000000 else r.
+
+Lemma SReq_of_abs : forall s call, J true s -> T1 s -> cur s = None -> HeapModel.batch (heap s) = [] ->
+  time_valid s = true ->
+  match AbsOf s with
+  | Some a => SReq s call (ns_of call (rel_of s a)) (fun _ => False)
+  | None => SReq s call (-1) (fun _ => False)
+  end.
+Proof.
+  intros s call Jh T C B TV. destruct (J_SiTm _ _ Jh) as [HI _].
+  destruct (t1_stale _ T) as (ST1 & ST2 & ST3). specialize (ST3 TV).
+  unfold AbsOf. destruct (tasks s) as [|k0 tl] eqn:TK.
+  - (* no task *)
+    assert (NT : forall k, task_registered s k = true -> False).
+    { intros k H. apply (task_reg_tasks s k C H). exact TK. }
+    destruct (soonest_timeout s) as [a|] eqn:SO.
+    + constructor; [intros k _ H; destruct (NT k H)|].
+      intros j JR TR. destruct (soonest_min s j HI B TR) as (a' & SO' & LE). rewrite SO in SO'. inversion SO'; subst a'.
+      set (r := rel_of s a). assert (R0 : 0 <= r) by (unfold r, rel_of; destruct (Z.ltb_spec (time s) a); lia).
+      assert (N0 : 0 <= ns_of call r) by (unfold ns_of; destruct ((call =? 0) || (call =? 2)); [pose proof (msec_nonneg r R0); lia|lia]).
+      exists (clock (kern s) + ns_of call r). split; [left; split; [exact N0|reflexivity]|].
+      intros ST. specialize (ST1 ST TV). unfold r, rel_of, ns_of, bnd in *. rewrite ST1 in *.
+      destruct (Z.ltb_spec (clock (kern s)) a) as [L|L].
+      * right. destruct ((call =? 0) || (call =? 2)); [|lia].
+        pose proof (msec_le_ceil (a - clock (kern s)) ltac:(lia)). pose proof (ceil_mono (a - clock (kern s)) (HeapModel.texp (heap s) (tmid j) - clock (kern s)) ltac:(lia)). lia.
+      * left. destruct ((call =? 0) || (call =? 2)); [rewrite msec_zero|]; lia.
+    + constructor; [intros k _ H; destruct (NT k H)|].
+      intros j JR TR. destruct (soonest_min s j HI B TR) as (a' & SO' & _). congruence.
+  - (* a task is registered: zero timeout *)
+    assert (RZ : rel_of s 0 = 0) by (unfold rel_of; destruct (Z.ltb_spec (time s) 0); [lia|reflexivity]).
+    assert (NZ : ns_of call (rel_of s 0) = 0) by (rewrite RZ; unfold ns_of; destruct ((call =? 0) || (call =? 2)); reflexivity).
+    rewrite NZ. constructor.
+    + intros k _ _. exists (clock (kern s) + 0). split; [left; split; [lia|reflexivity]|lia].
+    + intros j _ _. exists (clock (kern s) + 0). split; [left; split; [lia|reflexivity]|]. intros _. left. lia.
+Qed.
+
+(* transport across steps that keep the registrations and only let time pass *)
+Lemma SReq_keep : forall s s' call timeout A, SReq s call timeout A ->
+  (forall k, task_registered s' k = task_registered s k) -> heap s' = heap s ->
+  clock (kern s) <= clock (kern s') ->
+  (a_stale (mst s') = false -> a_stale (mst s) = false /\ clock (kern s') = clock (kern s)) ->
+  SReq s' call timeout A.
+Proof.
+  intros s s' call timeout A [RT RM] TK H CL ST. constructor.
+  - intros k K R. rewrite TK in R. destruct (RT k K R) as (D & SB & DL).
+    destruct SB as [[TP ->]|A0].
+    + exists (clock (kern s') + timeout). split; [left; split; [exact TP|reflexivity]|lia].
+    + exists D. split; [right; exact A0|lia].
+  - intros j JR R. unfold timer_registered in *. rewrite H in *. destruct (RM j JR R) as (D & SB & DB).
+    destruct SB as [[TP ->]|A0].
+    + exists (clock (kern s') + timeout). split; [left; split; [exact TP|reflexivity]|].
+      intros S'. destruct (ST S') as [S0 CE]. rewrite CE. apply DB. exact S0.
+    + exists D. split; [right; exact A0|].
+      intros S'. destruct (ST S') as [S0 CE]. rewrite CE. apply DB. exact S0.
+Qed.
+
+(* ---------- the external actions at a wait only let time pass ---------- *)
+Record WFr (s s' : core) : Prop := {
+  wf_heap : heap s' = heap s;
+  wf_time : time s' = time s;
+  wf_tv : time_valid s' = time_valid s;
+  wf_tasks : tasks s' = tasks s;
+  wf_cur : cur s' = cur s;
+  wf_clock : clock (kern s) <= clock (kern s');
+  wf_stale : a_stale (mst s') = false -> a_stale (mst s) = false /\ clock (kern s') = clock (kern s);
+  wf_pfds : pfds s' = pfds s;
+  wf_method : method s' = method s }.
+
+Lemma WFr_refl : forall s, WFr s s.
+Proof. intros s. constructor; try reflexivity; auto. Qed.
+
+Lemma WFr_trans : forall a b c, WFr a b -> WFr b c -> WFr a c.
+Proof.
+  intros a b c [] []. constructor; try congruence; [lia|].
+  intros H. destruct (wf_stale1 H) as [H1 E1]. destruct (wf_stale0 H1) as [H0 E0]. split; [exact H0|congruence].
+Qed.
+
+Lemma WFr_kern : forall s a k1, (forall d, a <> AClockAdv d) -> a <> AInvalidate -> clock k1 = clock (kern s) ->
+  WFr s (set_kern (emit s (TAct a)) k1).
+Proof.
+  intros s a k1 N1 N2 C. constructor; try reflexivity; cbn [kern set_kern]; [lia|].
+  change (mst (set_kern (emit s (TAct a)) k1)) with (mst (emit s (TAct a))). rewrite mst_emit, a_stale_step.
+  intros H. split; [|exact C]. destruct a; try exact H; [exfalso; eapply N1; reflexivity|contradiction].
+Qed.
+
+Lemma wait_action_WFr : forall s a s', wf_wait_action a -> do_action s a = R s' -> WFr s s'.
+Proof.
+  intros s a s' W. destruct a; cbn [wf_wait_action] in W; try contradiction; unfold do_action; cbv zeta.
+  - intros E. inversion E. apply WFr_kern; [intros ?; discriminate|discriminate|].
+    apply (proj1 (ksame_set_cond (kern s) i c)).
+  - intros E. inversion E. apply WFr_kern; [intros ?; discriminate|discriminate|].
+    apply (proj1 (ksame_user_fd (kern s) i)).
+  - destruct (rw_reg s j); intros E; inversion E; [|apply WFr_refl]. unfold raw_post.
+    cbn [efd_raw emit set_trace kern rw_wfd].
+    destruct (efd_raw s =? 0).
+    + pose proof (ksame_write (kern s) (rw_wfd s j) 1 0) as K. destruct (k_write (kern s) (rw_wfd s j) 1 0) as [k1 x].
+      apply WFr_kern; [intros ?; discriminate|discriminate|apply K].
+    + pose proof (ksame_write (kern s) (rw_wfd s j) 8 1) as K. destruct (k_write (kern s) (rw_wfd s j) 8 1) as [k1 x].
+      apply WFr_kern; [intros ?; discriminate|discriminate|apply K].
+  - intros E. inversion E. constructor; try reflexivity; cbn [kern set_kern clock k_set_clock]; [lia|].
+    change (mst (set_kern (emit s (TAct (AClockAdv d))) (k_set_clock (kern s) (clock (kern s) + d))))
+      with (mst (emit s (TAct (AClockAdv d)))). rewrite mst_emit, a_stale_step. discriminate.
+Qed.
+
+Lemma wait_acts_WFr : forall l s s', Forall wf_wait_action l -> run_acts s l = R s' -> WFr s s'.
+Proof.
+  induction l as [|a l IH]; intros s s' W; cbn [run_acts].
+  - intros E. inversion E. apply WFr_refl.
+  - inversion W as [|? ? W1 W2]; subst. destruct (do_action s a) as [s1|s1] eqn:D; cbn [bind]; [|discriminate].
+    intros E. eapply WFr_trans; [apply (wait_action_WFr _ _ _ W1 D)|apply (IH _ _ W2 E)].
+Qed.
+
+Lemma wait_enter_WFr : forall sc s s', wf_scenario sc -> wait_enter sc s = R s' -> WFr s s'.
+Proof.
+  intros sc s s' WF. unfold wait_enter. destruct (sc_limit sc <? nwait (kern s) + 1); [discriminate|].
+  intros E. eapply WFr_trans; [|apply (wait_acts_WFr _ _ _ (wf_waits sc WF _) E)].
+  constructor; try reflexivity; auto.
+Qed.
+
+Lemma SReq_WFr : forall s s' call timeout A, SReq s call timeout A -> WFr s s' -> SReq s' call timeout A.
+Proof.
+  intros s s' call timeout A R [] . apply (SReq_keep s s' call timeout A R); try assumption.
+  intros k. unfold task_registered. rewrite wf_tasks0, wf_cur0. reflexivity.
 Qed.
